@@ -272,6 +272,24 @@ FamC18(dummy) ==
          P \in {[Build(kd, "res", pr, StepC18, NoName, ExprInit, IF kd.try THEN "and_then" ELSE "then") EXCEPT !.hform = "call"] :
                   kd \in Kinds8, pr \in IF Tier = "quick" THEN {<<2>>, <<1, 2>>, <<2, 1, 2>>} ELSE Profiles(3, 2) \cup {<<3, 1, 2>>}}}
 
+\* ---- C17: two-digit branch / step / position indices; block operands at every position
+IdBig(b, k, j) == 10000 * (b + 1) + 100 * k + j
+BranchBig(b, steps) == [name |-> IF b % 5 = 0 THEN "let" ELSE "none", init |-> IF b % 3 = 0 THEN "block" ELSE "expr",
+                        iid |-> 10000 * (b + 1), steps |-> steps]
+ProgBig(kind, nb, depth, per, h) ==
+  Prog(kind, "res",
+       [i \in 1 .. nb |->
+          BranchBig(i - 1, [k \in 1 .. depth |->
+                              [j \in 1 .. per |-> Item(IdBig(i - 1, k - 1, j), IF j % 2 = 0 THEN "and_then" ELSE "map",
+                                                       IF j % 3 = 0 THEN "call" ELSE "block", <<>>)]])], h)
+FamC17(dummy) ==
+  {Run(P, <<>>, {}) :
+     P \in {ProgBig(kd, sh[1], sh[2], sh[3], IF sh[1] < 13 THEN DefaultHandler(kd) ELSE "none") :
+              kd \in {Kind(FALSE, FALSE, FALSE), Kind(FALSE, TRUE, FALSE), Kind(TRUE, TRUE, FALSE)} \cup
+                     (IF Tier = "quick" THEN {} ELSE {Kind(TRUE, FALSE, FALSE)}),
+              sh \in {<<24, 1, 1>>, <<1, 1, 24>>, <<12, 1, 12>>, <<1, 12, 2>>, <<3, 11, 1>>}}}
+  \cup {Run(ProgBig(Kind(FALSE, t, TRUE), 12, 2, 2, "none"), <<>>, {}) : t \in BOOLEAN}
+
 Runs(dummy) ==
   TLCEval(CASE Family = "C04" -> FamC04(0)
             [] Family = "C05" -> FamC05(0)
@@ -289,7 +307,10 @@ Runs(dummy) ==
             [] Family = "C13" -> FamC13(0)
             [] Family = "C16" -> FamC16(0)
             [] Family = "C18" -> FamC18(0)
+            [] Family = "C17" -> FamC17(0)
             [] Family = "C13l" -> {r \in FamC13(0) : r.prog.kind.async /\ r.gates # {}}
+            [] Family = "C19" -> {r \in FamC04(0) \cup FamC10(0) \cup FamC11(0) \cup FamC12(0) \cup FamC13(0) :
+                                    ~r.prog.kind.spawn /\ ~r.prog.kind.async}
             [] Family = "C11h" -> {r \in FamC11(0) : NB(r.prog) <= 2 /\ ~r.prog.kind.spawn}
             [] Family = "C13h" -> {r \in FamC13(0) : NB(r.prog) <= 2 /\ ~r.prog.kind.spawn}
             [] Family = "C10h" -> {r \in FamC10(0) : NB(r.prog) <= 2 /\ ~r.prog.kind.spawn})
@@ -327,7 +348,7 @@ Reduced(e) ==
   /\ (\E h \in HandlerEvents(s) : h.ev = "hexpr") => e.ev = "hexpr"
   /\ (s.garbage # {} /\ ~s.dropsFree) => (e.ev = "drop" /\ \A v \in s.garbage : <<e.v.b, e.v.n>> = <<v.b, v.n>> \/ e.v.b < v.b \/ (e.v.b = v.b /\ e.v.n <= v.n))
   /\ (e.b >= 0 /\ e.ev \in {"init", "opnd", "enter", "arrive", "exit", "panic"}
-      /\ (~IsSpawn(P) \/ Cardinality(Active(P, s.k)) < 2))
+      /\ (~IsSpawn(P) \/ Cardinality(Active(P, s.k)) < 2 \/ NB(P) > 4))   \* many independent threads: one representative order
      => \A c \in BrSet(P) : (c < e.b /\ MayRun(s, c)) => BranchEvent(s, c) = {}
 
 Step ==
